@@ -2746,7 +2746,19 @@ func ruleR110(c *Ctx) {
 			})
 			return found
 		}
-		bad := g.MustPassBeforeExit(g.Entry(), true, func(nd ast.Node) bool { return nd != nil && isPost(nd) })
+		// a path that observed the cancellation of the token's context leaves without posting: the node's loop may
+		// be gone, and the token sees the cancellation in its own select
+		isCancel := func(nd ast.Node) bool {
+			found := false
+			ast.Inspect(nd, func(m ast.Node) bool {
+				if u, ok := m.(*ast.UnaryExpr); ok && u.Op == token.ARROW && isCtxDoneCall(in, u.X) {
+					found = true
+				}
+				return !found
+			})
+			return found
+		}
+		bad := g.MustPassBeforeExit(g.Entry(), true, func(nd ast.Node) bool { return nd != nil && (isPost(nd) || isCancel(nd)) })
 		direct := ""
 		ast.Inspect(f.Body, func(m ast.Node) bool {
 			if s, ok := m.(*ast.SendStmt); ok && isReplyChan(in.TypeOf(s.Chan)) {
@@ -2757,7 +2769,7 @@ func ruleR110(c *Ctx) {
 			return true
 		})
 		ok := len(bad) == 0 && direct == ""
-		wit := "every path posts the request into the mailbox; no action is sent from NextAction"
+		wit := "every path posts the request into the mailbox (or leaves on the cancellation of its context); no action is sent from NextAction"
 		if len(bad) > 0 {
 			wit = "a path returns without posting the request: " + witnessLines(g, bad)
 		}
